@@ -45,9 +45,13 @@ pub(crate) struct Table<P, T>(UnsafeCell<Vec<Node<P, T>>>);
 // - Sending a mutable reference of PrefixMap over thread boundaries (i.e., TrieView is Send) is
 //   safe, because we ensure that the existence of a TrieViewMut on a sub-tree implies the absence
 //   of any other TrieView or TrieViewMut that overlaps with that sub-tree.
-// The same argument holds for Sync.
+// The same argument holds for Sync. However, a shared reference to the table is all that a
+// TrieViewMut (or a mutable iterator) holds, and through it values can be mutated, replaced and
+// taken out. Sharing the table between threads must therefore require `Send` in addition to `Sync`
+// (as for `RwLock`); otherwise, a value that is `Sync` but not `Send` (e.g., a `MutexGuard`) could
+// be moved to and dropped on another thread through a TrieViewMut.
 unsafe impl<P: Send, T: Send> Send for Table<P, T> {}
-unsafe impl<P: Sync, T: Sync> Sync for Table<P, T> {}
+unsafe impl<P: Send + Sync, T: Send + Sync> Sync for Table<P, T> {}
 
 impl<P, T> AsRef<Vec<Node<P, T>>> for Table<P, T> {
     fn as_ref(&self) -> &Vec<Node<P, T>> {
